@@ -8,6 +8,8 @@ import (
 	"log"
 	"strings"
 	"testing"
+	"unicode"
+	"unicode/utf8"
 
 	"verifh/vrep"
 	"verifh/vsync"
@@ -98,7 +100,7 @@ func c13Occurrence(c *vrep.Ctx) {
 	alpha := []string{"a", "b", "c", ","}
 	maxTok := c.Pick(3, 4)
 	pairTok := c.Pick(2, 3)
-	ctxAlpha := []string{"x", "y", "a"}
+	ctxAlpha := []string{"x", "y", "a", ".", ")"}
 	maxCtx := c.Pick(1, 2)
 	single := c13Values(alpha, maxTok)
 	small := c13Values(alpha, pairTok)
@@ -109,7 +111,7 @@ func c13Occurrence(c *vrep.Ctx) {
 		sep  string
 	}{{"none", nil, " "}, {"FlattenWhitespace", []NormalizeFunc{FlattenWhitespace}, " \n  "}}
 	ts := []float64{0.5, 0.8, 1}
-	c.R.Rule = fmt.Sprintf("ALL known-value sets over tokens {a,b,c,','}: every single value of 1..%d tokens and every pair of values of 1..%d tokens (none inside another) x ALL unknowns pre+K+post with pre/post of 0..%d tokens over {x,y,a} containing exactly one occurrence of K (token aligned; family 'glued' attaches the context without a blank) x normaliser lists {none, FlattenWhitespace with multi-blank separators} x thresholds %v; MultipleMatch must report K with Confidence 1.0 and Offset/Extent of exactly that copy, NearestMatch(K) = (K, 1.0), all confidences in (0,1], all ranges inside the normalised unknown; library goroutines run as modelled threads (default schedule); non-trivial = distinct (value set, unknown, normaliser, threshold) cases", maxTok, pairTok, maxCtx, ts)
+	c.R.Rule = fmt.Sprintf("ALL known-value sets over tokens {a,b,c,','}: every single value of 1..%d tokens and every pair of values of 1..%d tokens (none inside another) x ALL unknowns pre+K+post with pre/post of 0..%d tokens over {x,y,a} containing exactly one occurrence of K (family 'glued' attaches word or punctuation context without a blank: glued punctuation leaves the copy token aligned and is demanded exactly, glued letters are the recorded finding) x normaliser lists {none, FlattenWhitespace with multi-blank separators} x thresholds %v; MultipleMatch must report K with Confidence 1.0 and Offset/Extent of exactly that copy, NearestMatch(K) = (K, 1.0), all confidences in (0,1], all ranges inside the normalised unknown; library goroutines run as modelled threads (default schedule); non-trivial = distinct (value set, unknown, normaliser, threshold) cases", maxTok, pairTok, maxCtx, ts)
 	c.Bound("max_value_tokens", maxTok)
 	c.Bound("max_context_tokens", maxCtx)
 	body := func(r *vx.Run) {
@@ -200,7 +202,21 @@ func c13Occurrence(c *vrep.Ctx) {
 				msg = fmt.Sprintf("NearestMatch(K1) = %+v, want K1 with Confidence 1.0", near)
 			}
 		}
-		r.Note = map[string]interface{}{"id": id, "msg": msg, "fam": fam, "k1": k1.text(), "unknownTail": strings.HasSuffix(normU, normK), "ntok": len(k1.toks)}
+		// token alignment of the occurrence (reference notion: a token boundary is the string end, a
+		// blank, or a punctuation character on either side)
+		isB := func(r rune) bool { return unicode.IsSpace(r) || unicode.IsPunct(r) }
+		aligned := true
+		if at > 0 {
+			prev, _ := utf8.DecodeLastRuneInString(normU[:at])
+			first, _ := utf8.DecodeRuneInString(normK)
+			aligned = aligned && (isB(prev) || isB(first))
+		}
+		if end := at + len(normK); end < len(normU) {
+			next, _ := utf8.DecodeRuneInString(normU[end:])
+			last, _ := utf8.DecodeLastRuneInString(normK)
+			aligned = aligned && (isB(next) || isB(last))
+		}
+		r.Note = map[string]interface{}{"id": id, "msg": msg, "fam": fam, "k1": k1.text(), "aligned": aligned}
 	}
 	c.Run(vSplitExplorer(c, 0, 2), body, func(r *vx.Run) {
 		if r.Note["skip"] != nil {
@@ -214,7 +230,7 @@ func c13Occurrence(c *vrep.Ctx) {
 		}
 		if m := r.Note["msg"].(string); m != "" {
 			key := "c13:" + strings.ReplaceAll(id, " ", "_")
-			if r.Note["fam"].(int) == 2 {
+			if r.Note["fam"].(int) == 2 && !r.Note["aligned"].(bool) {
 				key = "c13:class:glued-occurrence-not-token-aligned"
 			}
 			c.Violate(key, id+": "+m, r, m)
